@@ -69,7 +69,11 @@ def run_cell(prop, cell, opts):
                 aborted = True
             except core.Unsupported as e:
                 aborted = True
-                _add_inc(res, 'unsupported: %s' % (e,), ctx)
+                tb = traceback.extract_tb(sys.exc_info()[2])
+                where = ' <- '.join('%s:%d' % (os.path.basename(f.filename),
+                                               f.lineno)
+                                    for f in tb[-4:][::-1])
+                _add_inc(res, 'unsupported: %s [%s]' % (e, where), ctx)
             except core.StepBudget as e:
                 aborted = True
                 _add_inc(res, 'step budget: %s' % (e,), ctx)
